@@ -326,7 +326,9 @@ func (c *Conn) ExecWALTx(tx WalTx) (res TxResult, err error) {
 		return res, unlockWrite()
 	}
 
-	newImg, dirty := db.buildImage(db.Img, tx.Tx, ref.ModeWAL)
+	wtx := tx.Tx
+	wtx.Holes = 0 // in WAL mode SQLite writes a frame for every dirty page
+	newImg, dirty := db.buildImage(db.Img, wtx, ref.ModeWAL)
 	res.Pages = len(dirty)
 	res.Attempt = newImg
 
@@ -366,6 +368,16 @@ func (c *Conn) ExecWALTx(tx WalTx) (res TxResult, err error) {
 			seq = append(seq, pgs[i%len(pgs)])
 		}
 	} else {
+		if tx.SpillFrames > 0 && newImg.N() < db.Img.N() {
+			// pages written in a spill before the transaction shrank the database below
+			// them (auto-vacuum, incremental vacuum): frames past the commit size
+			lock := ref.LockPgno(db.PageSize)
+			for p, k := db.Img.N(), 0; p > newImg.N() && k < 2; p, k = p-1, k+1 {
+				if p != lock && p != 1 {
+					seq = append(seq, p)
+				}
+			}
+		}
 		if tx.SpillFrames > 0 {
 			for i := 0; i < tx.SpillFrames && i < len(pgs); i++ {
 				if pgs[i] != 1 {
@@ -386,6 +398,10 @@ func (c *Conn) ExecWALTx(tx WalTx) (res TxResult, err error) {
 			commit = newImg.N()
 		}
 		data := newImg.Page(p)
+		if p > newImg.N() {
+			data = append([]byte(nil), db.Img.Page(p)...)
+			data[len(data)-5] ^= 0x77 // an intermediate version of a page that is about to be cut off
+		}
 		for _, later := range seq[i+1:] {
 			if later == p && !tx.NoWrite {
 				// SQLite writes a page again when it changed after a cache spill: the
